@@ -134,7 +134,7 @@ B1 = ["int", 1, False, "b", "alias"]
 @st.composite
 def probe_cases(draw):
     """Struct(producer, consumer): the consumer's bytes depend on the context value the producer's generated code stored"""
-    prod = draw(st.sampled_from(["int", "enum", "flag", "mapping", "varint", "const", "constbytes", "computed", "rebuild", "default", "nested", "bytes", "pstr", "array", "parray", "flagsenum"]))
+    prod = draw(st.sampled_from(["int", "enum", "enum-odd-labels", "flag", "mapping", "varint", "const", "constbytes", "computed", "rebuild", "default", "nested", "bytes", "pstr", "array", "parray", "flagsenum"]))
     name = "p"
     ref = ["this", [name], draw(st.sampled_from(["attr", "item"]))]
     members = []
@@ -153,6 +153,11 @@ def probe_cases(draw):
         members.append([name, ["flag"]])
         e = ref
         consts = [True, False, 0, 1]
+    elif prod == "enum-odd-labels":
+        # labels that are falsy or look like other things: the table is consulted by presence, not by truthiness
+        members.append([name, ["enum", B1, [["", 0], ["0", 1], ["None", 2]], "kw"]])
+        e = ref
+        consts = ["", "0", "None", 0, 3]
     elif prod == "mapping":
         members.append([name, ["mapping", B1, [["x", 1], ["y", 2], ["z", 3]]]])
         e = ref
